@@ -2,7 +2,10 @@
 // subscribing on another thread than the collector).  Model: coq/SignalXDefs.v (engine sx_i).
 // threads: 1 kind limit   subscriber (kind 0 plain coroutine co_await e; 1 blocking: future coroutine + .wait();
 //                                     2 sig.connect(callback staying for `limit` calls, 0 = for ever);
-//                                     3 detached cocls::async<void> coroutine co_await e)
+//                                     3 detached cocls::async<void> coroutine co_await e;
+//                                     4 plain coroutine awaiting signal<T>::hook_up(fn): fn hands the collector to the collector
+//                                       thread, which is blocked until then and emits while the hook-up is still running;
+//                                       only together with exactly one collector thread and nothing else)
 //          2 a1 a2 ...    collector thread (1 = collector(next value 1,2,..), 0 = drop the handle, ends the list)
 //          9 ...          schedule
 // yield points: asub / apub / rchain / walk in awaiter.h, the flag wait of co_awaiter::sync, and the scenario's
@@ -55,6 +58,15 @@ struct plain_co {
     std::coroutine_handle<promise_type> h;
 };
 
+template <typename E>
+static plain_co hook_listener(long id, E e) {
+    try {
+        Val &v = co_await e;
+        ev(1, id, v.v);
+    } catch (const await_canceled_exception &) {
+        ev(2, id, 0);
+    }
+}
 static plain_co plain_listener(long id, sig_t::emitter e) {
     try {
         Val &v = co_await e;
@@ -96,7 +108,7 @@ static void run_case(const vh::Case &cs) {
     std::vector<long> sched;
     for (auto &op : cs.ops) {
         if (op.empty()) continue;
-        if (op[0] == 1 && op.size() == 3 && op[1] >= 0 && op[1] <= 3 && op[2] >= 0 && op[2] <= 9) decl.push_back({1, op[1], op[2], {}});
+        if (op[0] == 1 && op.size() == 3 && op[1] >= 0 && op[1] <= 4 && op[2] >= 0 && op[2] <= 9) decl.push_back({1, op[1], op[2], {}});
         else if (op[0] == 2) {
             Decl d{2, 0, 0, {}};
             for (size_t i = 1; i < op.size(); i++) {
@@ -106,22 +118,29 @@ static void run_case(const vh::Case &cs) {
             decl.push_back(d);
         } else if (op[0] == 9) sched.insert(sched.end(), op.begin() + 1, op.end());
     }
-    int ncoll = 0;
-    for (auto &d : decl) ncoll += d.role == 2;
-    if (ncoll != 1 || decl.size() > 6) { vh::print_obs({1}); return; }
+    int ncoll = 0, nhook = 0;
+    for (auto &d : decl) { ncoll += d.role == 2; nhook += d.role == 1 && d.kind == 4; }
+    if (ncoll != 1 || decl.size() > 6 || (nhook && decl.size() != 2)) { vh::print_obs({1}); return; }
+    bool hook = nhook > 0;
     int n = (int)decl.size();
     g_events.clear();
     vh::t_count = false;
     std::optional<sig_t> sig;
-    sig.emplace();
-    std::optional<sig_t::collector> col(sig->get_collector());
-    sig_t::emitter em = sig->get_emitter();
+    std::optional<sig_t::collector> col;
+    sig_t::emitter em;
+    std::atomic<bool> registered{false};
+    if (!hook) {     // hook-up case: the state is created by the listener's first await
+        sig.emplace();
+        col.emplace(sig->get_collector());
+        em = sig->get_emitter();
+    }
     std::vector<std::optional<sig_t>> own(n);     // a connecting thread's own signal object
     for (int i = 0; i < n; i++)
         if (decl[i].role == 1 && decl[i].kind == 2) own[i].emplace(*sig);
     sig.reset();
     std::vector<plain_co> plain(n);
-    std::weak_ptr<std::remove_reference_t<decltype(*col->_state)>> probe = col->_state;
+    std::weak_ptr<std::remove_reference_t<decltype(*std::declval<sig_t::collector &>()._state)>> probe;
+    if (!hook) probe = col->_state;
     long nextv = 1;
     vh::t_count = true;
     std::vector<std::function<void()>> fns;
@@ -129,6 +148,7 @@ static void run_case(const vh::Case &cs) {
         Decl d = decl[i];
         if (d.role == 2) {
             fns.push_back([&, d] {
+                if (hook) ctl::block_until("xwait", [&] { return registered.load(); });
                 for (long a : d.acts) {
                     ctl::point("step");
                     if (a == 1) {
@@ -152,6 +172,19 @@ static void run_case(const vh::Case &cs) {
                         } catch (const await_canceled_exception &) {
                             ev(2, i, 0);
                         }
+                        break;
+                    }
+                    case 4: {
+                        auto reg = [&](sig_t::collector c) {
+                            bool saved = vh::t_count;
+                            vh::t_count = false;
+                            probe = c._state;
+                            col.emplace(std::move(c));      // from now on the collector thread can call it
+                            vh::t_count = saved;
+                            registered.store(true);
+                        };
+                        auto e = sig_t::hook_up(reg);
+                        plain[i] = hook_listener(i, std::move(e));
                         break;
                     }
                     case 2: {
